@@ -51,6 +51,21 @@ def build(spec):
             c10.apply_real(m, tuple(c10._norm(op)), cls)
         except Exception:
             pass
+    # plain dict values (every encoder writes a mapping as a block) put in by assignment
+    # to an existing key or by insert - the ways that do not go through append()
+    for mode, idx, key in spec.get("inject") or []:
+        try:
+            dv = {"x": 1, "y": [1, 2]}
+            if mode == "set" and len(m):
+                m[list(m.keys())[idx % len(m)]] = dv
+            elif mode == "insert":
+                m.insert(idx % (len(m) + 1), key, dv)
+            elif mode == "append":
+                m.append(key, dv)
+            elif mode == "before" and len(m):
+                m.insert_before(list(m.keys())[idx % len(m)], (key, dv))
+        except Exception:
+            pass
     if spec.get("attr"):
         # an extra instance attribute, as every module from pvl.loads() has (.errors)
         m.errors = [3]
@@ -87,6 +102,8 @@ def snap(x):
             except Exception as e:
                 mapping.append((k, type(e).__name__))
         return ("C", type(x).__name__, pairs, mapping, len(x))
+    if isinstance(x, dict):
+        return ("D", type(x).__name__, [(k, snap(v)) for k, v in x.items()])
     if isinstance(x, list):
         return ("L", [snap(i) for i in x])
     if isinstance(x, tuple) and hasattr(x, "units"):
@@ -244,10 +261,12 @@ def spec_strategy():
     leaf = st.one_of(scalar, lst)
     value = st.recursive(leaf, lambda ch: st.one_of(leaf, container(ch)),
                          max_leaves=12)
-    return st.builds(lambda c, items, attr, pre: {"c": c, "items": items, "attr": attr,
-                                                 "pre": pre},
-                     clsname, st.lists(st.tuples(key, value), max_size=7),
-                     st.booleans(), pre)
+    inject = st.one_of(st.just([]), st.just([]), st.lists(st.tuples(
+        st.sampled_from(["set", "insert", "append", "before"]), st.integers(0, 6), key),
+        min_size=1, max_size=2).map(lambda l: [list(t) for t in l]))
+    return st.builds(lambda c, items, attr, pre, inject: {
+        "c": c, "items": items, "attr": attr, "pre": pre, "inject": inject},
+        clsname, st.lists(st.tuples(key, value), max_size=7), st.booleans(), pre, inject)
 
 
 @st.composite
